@@ -22,7 +22,7 @@ import (
 func init() { register("C06", "exploration", runC06) }
 
 func runC06(r *ev.Run) {
-	r.SetRule("the harness connector is the remote truth. Histories mix (a) valid updates of every kind (MessagesCreated incl. several mailboxes and already-known messages, MessageFlagsUpdated, MessageMailboxesUpdated, MessageDeleted, MessageUpdated with the same and with new bytes and with AllowCreate, MessageIDChanged, MailboxCreated/Deleted/Updated, Noop), (b) invalid ones (unknown message/mailbox IDs, the protected recovery mailbox, duplicate mailbox names), (c) restatements of the current state and duplicate deliveries, (d) client commands whose remote echoes are delivered afterwards. Oracles: every update is acknowledged (watchdog = inconclusive) and never twice (a second Done panics and is recorded); valid ones with success; after every step and a barrier every mailbox seen by a fresh session equals the remote truth (membership, flags, bytes), untouched messages keep their UIDs and LIST equals the remote mailbox names; after (b) and (c) and after echoes the fresh views (UIDs, UIDNEXT, flags, bytes) are unchanged and a selected observer's NOOP carries no EXISTS/EXPUNGE/FETCH/RECENT. A second part submits bursts of mixed valid/invalid updates from several goroutines and checks one acknowledgement each and convergence. distinct = distinct (update kind, variant, ack outcome) triples")
+	r.SetRule("the harness connector is the remote truth. Histories mix (a) valid updates of every kind (MessagesCreated incl. several mailboxes and already-known messages, MessageFlagsUpdated, MessageMailboxesUpdated, MessageDeleted, MessageUpdated with the same and with new bytes and with AllowCreate, MessageIDChanged, MailboxCreated/Deleted/Updated, Noop), (b) invalid ones (unknown message/mailbox IDs, the protected recovery mailbox, duplicate mailbox names), (c) restatements of the current state and duplicate deliveries, (d) client commands whose remote echoes are delivered afterwards. Oracles: every update is acknowledged (watchdog = inconclusive) and never twice (a second Done panics and is recorded); valid ones with success; after every step and a barrier every mailbox seen by a fresh session equals the remote truth (membership, flags, bytes), untouched messages keep their UIDs and LIST equals the remote mailbox names; after (b) and (c) and after echoes the fresh views (UIDs, UIDNEXT, flags, bytes) are unchanged and a selected observer's NOOP carries no EXISTS/EXPUNGE/FETCH/RECENT. A second part submits bursts of mixed valid/invalid updates from several goroutines and checks one acknowledgement each and convergence. A third part keeps submitting updates while the server is closed or the user removed: every update the server took from the connector must have been acknowledged once Close has returned. distinct = distinct (update kind, variant, ack outcome) triples")
 	r.Assume("client STORE commands in (d) use only flags the connector is told about (\\Seen, \\Flagged) plus the per-mailbox \\Deleted: flags gluon keeps locally are by design overwritten by the next remote flag update; MailboxIDChanged is not exercised as a valid update (a connector has no way to learn internal mailbox IDs), only with unknown IDs")
 
 	hist := r.Pick(300, 3000)
@@ -34,6 +34,17 @@ func runC06(r *ev.Run) {
 		}
 
 		c06History(r, label, r.Pick(40, 60))
+	})
+
+	shutdowns := r.Pick(40, 400)
+
+	ev.Parallel(shutdowns, 8, func(i int) {
+		label := fmt.Sprintf("shutdown-%d", i)
+		if r.OnlyCase != "" && r.OnlyCase != label {
+			return
+		}
+
+		c06Shutdown(r, label)
 	})
 
 	bursts := r.Pick(30, 300)
@@ -1260,4 +1271,133 @@ func c06Burst(r *ev.Run, label string) {
 
 	c.snap = nil
 	c.checkTruth(after, "a burst of concurrent updates", nil)
+}
+
+// c06Shutdown: updates are submitted from several goroutines while the server is being closed (or the user
+// removed). An update that gluon took from the connector has been "submitted"; once Close has returned nothing
+// will ever touch it again, so it must have been acknowledged by then (with success or an error).
+func c06Shutdown(r *ev.Run, label string) {
+	rng := r.Rand(label)
+
+	s, err := startServer(r, label, nil)
+	if err != nil {
+		r.Inconclusive("%s: %v", label, err)
+		return
+	}
+
+	conn := s.Users[0].Conn
+	boxes := conn.MailboxNames()
+
+	var inbox imap.MailboxID
+	for id := range boxes {
+		inbox = id
+	}
+
+	r.Eval(1)
+
+	type sub struct {
+		up   imap.Update
+		kind string
+	}
+
+	var (
+		mu        sync.Mutex
+		submitted []sub
+		wg        sync.WaitGroup
+	)
+
+	stop := make(chan struct{})
+	workers := 2 + rng.Intn(4)
+
+	for wk := 0; wk < workers; wk++ {
+		wg.Add(1)
+
+		go func(wk int) {
+			defer wg.Done()
+
+			wrng := r.Rand(label, "w", wk)
+
+			for n := 0; ; n++ {
+				select {
+				case <-stop:
+					return
+				default:
+				}
+
+				var (
+					up   imap.Update
+					kind string
+				)
+
+				switch wrng.Intn(3) {
+				case 0:
+					up, kind = imap.NewNoop(), "Noop"
+				case 1:
+					up, kind = imap.NewMessageFlagsUpdated("no-such-remote-message", imap.NewFlagSet()), "MessageFlagsUpdated"
+				default:
+					mc, err := conn.RemoteAddMessage(simpleMessage(fmt.Sprintf("%s-w%d-%d", label, wk, n), wrng), imap.NewFlagSet(), c06Date, inbox)
+					if err != nil {
+						continue
+					}
+
+					up, kind = imap.NewMessagesCreated(false, mc), "MessagesCreated"
+				}
+
+				if err := conn.Submit(up, 5*time.Second); err != nil {
+					return // closed (or not taken): not submitted
+				}
+
+				mu.Lock()
+				submitted = append(submitted, sub{up, kind})
+				mu.Unlock()
+			}
+		}(wk)
+	}
+
+	time.Sleep(time.Duration(rng.Intn(40)) * time.Millisecond)
+
+	how := "Close"
+
+	if rng.Intn(2) == 0 {
+		how = "RemoveUser"
+
+		ctx, cancel := context.WithTimeout(context.Background(), 2*time.Minute)
+		_ = s.G.RemoveUser(ctx, s.Users[0].ID, false)
+
+		cancel()
+	}
+
+	_ = s.Close()
+
+	close(stop)
+	wg.Wait()
+
+	// Everything gluon took has had its chance: look without waiting.
+	unacked := 0
+	firstKind := ""
+
+	for _, sb := range submitted {
+		ctx, cancel := context.WithTimeout(context.Background(), 20*time.Millisecond)
+		_, ok := sb.up.WaitContext(ctx)
+		open := !ok && ctx.Err() != nil
+
+		cancel()
+
+		if open {
+			unacked++
+
+			if firstKind == "" {
+				firstKind = sb.kind
+			}
+		}
+	}
+
+	r.Distinct(fmt.Sprintf("shutdown by %s with updates in flight: unacknowledged=%v", how, unacked > 0))
+	r.Count("updates_submitted_around_shutdown", len(submitted))
+
+	if unacked > 0 {
+		r.Violate("C06 update-not-acknowledged at-shutdown", fmt.Sprintf("%d of %d updates that the server had taken from the connector were never acknowledged although %s has returned (e.g. a %s): their senders wait for ever", unacked, len(submitted), how, firstKind), label, nil)
+	}
+
+	s.Destroy()
 }
